@@ -1,87 +1,16 @@
-import MoneroModel.Util.Hex
-import MoneroModel.Model.Tx
-import MoneroModel.Spec.Leb128
-import MoneroModel.Model.Tags
-import MoneroModel.Spec.Tags
-import MoneroModel.Model.AmountArith
+import MoneroModel.Drv.C14
+import MoneroModel.Drv.C18
+import MoneroModel.Drv.C20
 /-! Line-protocol driver: one operation per input line, one result line per operation.
-Result line = `<model result>\t<spec result>` (`-` when the operation has no model / no spec side). -/
-open Monero
+Result line = `<model result>\t<spec result>` (`-` when the operation has no model / no spec side).
+Each property contributes a step function in `MoneroModel/Drv/Cxx.lean`. -/
 
-def showOpt (o : Option (Nat × Nat)) : String :=
-  match o with | none => "err" | some (n, k) => s!"ok {n} {k}"
-
-def netOfStr : String → Option Net | "Mainnet" => some .Mainnet | "Testnet" => some .Testnet | "Stagenet" => some .Stagenet | _ => none
-def kindOfStr : String → Option Kind | "Standard" => some .Standard | "Integrated" => some .Integrated | "SubAddress" => some .SubAddress | _ => none
-def showNet : Net → String | .Mainnet => "Mainnet" | .Testnet => "Testnet" | .Stagenet => "Stagenet"
-def showKind : Kind → String | .Standard => "Standard" | .Integrated => "Integrated" | .SubAddress => "SubAddress"
-def showAddrType : Option (Kind × Bytes) → String
-  | none => "err" | some (k, pid) => if k = .Integrated then s!"ok Integrated {Hex.encode pid}" else s!"ok {showKind k}"
-/-- address-type lookup by the book: the first byte must be a tag of the requested network -/
-def specAddrType (net : Net) (b : Bytes) : Option (Kind × Bytes) :=
-  match b with
-  | [] => none
-  | t :: _ => match Spec.untag t.toNat with
-    | some (n, k) => if n ≠ net then none else if k = .Integrated then (if b.length < 73 then none else some (k, (b.drop 65).take 8)) else some (k, [])
-    | none => none
-
-def stepTags (toks : List String) : Option (String × String) :=
-  match toks with
-  | ["net_tag", n, k] => do
-    let n ← netOfStr n; let k ← kindOfStr k
-    pure ((match asU8 n k with | some t => toString t | none => "err"), toString (Spec.tag n k))
-  | ["net_of", b] => do
-    let b ← b.toNat?
-    pure ((match fromU8 b with | some n => "ok " ++ showNet n | none => "err"), (match Spec.untag b with | some (n, _) => "ok " ++ showNet n | none => "err"))
-  | ["addrtype", n, h] => do
-    let n ← netOfStr n
-    let b := Hex.decode h
-    pure (showAddrType (addrTypeOf n b), showAddrType (specAddrType n b))
-  | _ => none
-
-def arithOfStr : String → Option Arith | "add" => some .add | "sub" => some .sub | "mul" => some .mul | "div" => some .div | "rem" => some .rem | _ => none
-def showOI : Option Int → String | none => "none" | some v => s!"some {v}"
-def showRes : Res → String | .val v => s!"val {v}" | .panic => "panic"
-/-- exact integer arithmetic by the book: the result iff representable and the divisor is non-zero -/
-def specArith (signed : Bool) (op : Arith) (a b : Int) : Option Int :=
-  let t := if signed then I64 else U64
-  match op with
-  | .add => t.chk (a + b) | .sub => t.chk (a - b) | .mul => t.chk (a * b)
-  | .div => if b = 0 then none else t.chk (Int.tdiv a b)
-  | .rem => if b = 0 then none else t.chk (Int.tmod a b)
-def stepAmtArith (toks : List String) : Option (String × String) :=
-  match toks with
-  | [form, ty, op, a, b] => do
-    let signed ← (if ty == "s" then some true else if ty == "u" then some false else none)
-    let op ← arithOfStr op; let a ← a.toInt?; let b ← b.toInt?
-    let sp := specArith signed op a b
-    if form == "amt_chk" then
-      pure ((match amtChecked signed op a b with | some r => showOI r | none => "unmodelled"), showOI sp)
-    else if form == "amt_op" then
-      pure ((match amtOperator signed op a b with | some r => showRes r | none => "unmodelled"), (match sp with | some v => s!"val {v}" | none => "panic"))
-    else if form == "amt_asg" then
-      pure ((match amtAssign signed op a b with | some r => showRes r | none => "unmodelled"), (match sp with | some v => s!"val {v}" | none => "panic"))
-    else none
-  | ["amt_to_signed", a] => do let a ← a.toInt?; pure (showOI (toSigned a), showOI (if a ≤ 2^63 - 1 then some a else none))
-  | ["amt_to_unsigned", a] => do let a ← a.toInt?; pure (showOI (toUnsigned a), showOI (if 0 ≤ a then some a else none))
-  | ["amt_possub", a, b] => do
-    let a ← a.toInt?; let b ← b.toInt?
-    pure ((match positiveSub a b with | some r => showOI r | none => "unmodelled"), showOI (if 0 ≤ b ∧ b ≤ a then some (a - b) else none))
-  | _ => none
+def steps : List Step := [Drv.stepC14, Drv.stepC18, Drv.stepC20]
 
 def step (toks : List String) : String × String :=
-  match toks with
-  | ["varint_dec", h] =>
-    let b := Hex.decode h
-    let m := match varint b with | none => "err" | some (n, r) => s!"ok {n} {b.length - r.length}"
-    (m, showOpt (Spec.leb128Accept b))
-  | ["varint_enc", n] =>
-    match n.toNat? with
-    | some k => let (bs, len) := encVarintImp k; (s!"{Hex.encode bs} {len}", s!"{Hex.encode (Spec.leb128 k)} {Spec.leb128Len k}")
-    | none => ("bad-op", "bad-op")
-  | _ => match (stepTags toks).orElse (fun _ => stepAmtArith toks) with
-    | some r => r
-    | none => ("bad-op", "bad-op")
+  match steps.findSome? (fun f => f toks) with
+  | some r => r
+  | none => ("bad-op", "bad-op")
 
 partial def loop (h : IO.FS.Stream) (out : IO.FS.Stream) : IO Unit := do
   let line ← h.getLine
